@@ -121,13 +121,21 @@ fn request_error(error: ureq::Error) -> crate::GDError {
     }
 }
 
-/// The error a failed read of a JSON body stands for: the document is not what
-/// was expected, or the rest of it did not arrive.
-fn body_error(error: std::io::Error) -> crate::GDError {
-    match error.kind() {
-        std::io::ErrorKind::InvalidData => ProtocolFormat.context(error),
-        _ => PacketReceive.context(error),
-    }
+/// Read the body of a response to its end, then parse it as JSON: the rest of the
+/// body did not arrive, or the document is not what was expected.
+///
+/// Parsing straight from the socket would retry the blocked read once for every
+/// JSON object or array that is still open when the body stops arriving.
+fn json_body<T: DeserializeOwned>(response: ureq::Response) -> GDResult<T> {
+    let mut buffer: Vec<u8> = Vec::new();
+
+    let _ = response
+        .into_reader()
+        .take(MAX_RESPONSE_LENGTH as u64)
+        .read_to_end(&mut buffer)
+        .map_err(|e| PacketReceive.context(e))?;
+
+    serde_json::from_slice(&buffer).map_err(|e| ProtocolFormat.context(e))
 }
 
 impl HttpClient {
@@ -339,11 +347,7 @@ impl HttpClient {
         let request = self.make_request(method, headers);
 
         // Send the request and parse the response as JSON.
-        request
-            .call()
-            .map_err(request_error)?
-            .into_json::<T>()
-            .map_err(body_error)
+        json_body(request.call().map_err(request_error)?)
     }
 
     /// Send a HTTP request with JSON data and parse the JSON response.
@@ -358,11 +362,7 @@ impl HttpClient {
         self.address.set_path(path);
         let request = self.make_request(method, headers);
 
-        request
-            .send_json(data)
-            .map_err(request_error)?
-            .into_json::<T>()
-            .map_err(body_error)
+        json_body(request.send_json(data).map_err(request_error)?)
     }
 
     /// Send a HTTP request with FORM data and parse the JSON response.
@@ -377,11 +377,7 @@ impl HttpClient {
         self.address.set_path(path);
         let request = self.make_request(method, headers);
 
-        request
-            .send_form(data)
-            .map_err(request_error)?
-            .into_json::<T>()
-            .map_err(body_error)
+        json_body(request.send_form(data).map_err(request_error)?)
     }
 }
 
